@@ -4,7 +4,7 @@ sys.path.insert(0, os.path.dirname(os.path.abspath(__file__)))
 import framework
 from framework import run_property
 import bbs_tables as T
-import rf_hash, rf_gates, rf_consts, rf_panic, rf_frame
+import rf_hash, rf_gates, rf_consts, rf_panic, rf_frame, rf_rand, rf_codec
 
 BBS_SCOPE = ('bbsplus::', 'utils::util::bbsplus_utils', 'utils::message::bbsplus_message')
 
@@ -75,6 +75,54 @@ def P(pid):
         meta['explanation'] = ('Domain separation decided as constant propagation: from every public entry point exactly the interface\'s '
                                'api id (and the BLIND_ prefix for blind generators) reaches every DST / seed role; the two suites differ in '
                                'every interface constant. Disjointness of hash-to-curve outputs is assumed, not decided.')
+    elif pid == 'C03':
+        R = [
+            ('RF-A option-normalisation proof_gen/proof_verify', lambda c: rf_consts.rule_option_normalisation(c, [T.POK + 'proof_gen', T.POK + 'proof_verify']), 8),
+            ('RF-N proof length and layout', rf_codec.rule_proof_length, 4),
+            ('RF-N reader/writer agreement', rf_codec.rule_reader_writer, 3),
+            ('RF-O production/mock twin agreement', rf_rand.rule_cfg_twins, 8),
+            ('RF-B interface constants proof_gen/proof_verify', lambda c: rf_consts.rule_interface_constants(c, [T.POK + 'proof_gen', T.POK + 'proof_verify']), 10),
+            ('RF-B index normalisation', rf_codec.rule_index_normalisation, 3),
+            ('RF-M generator offsets', rf_codec.rule_generator_offsets, 6),
+            ('RF-P accumulation loops cover every message', lambda c: rf_codec.rule_loop_coverage(c, fns=['bbsplus::proof::proof_init', 'bbsplus::proof::proof_verify_init', 'bbsplus::proof::proof_finalize']), 8),
+            ('RF-G2 role positions (prover)', rf_rand.rule_role_projection, 6),
+            ('RF-F proof_gen panic census', lambda c: rf_panic.rule_panic_census(c, entries=[T.POK + 'proof_gen'], with_serde=False, min_functions=12), 40),
+        ]
+        meta['explanation'] = ('Decides completely: None==empty for every optional input of proof_gen / proof_verify; proof length = 272 + 32 * U from the '
+                               'writer layout and the one-push-per-undisclosed-message loop; reader offsets equal writer offsets. Decides as necessary conditions '
+                               'of prover/verifier agreement: same interface constants, same generator split, sorted de-duplicated index lists on both sides, '
+                               'full coverage of every message vector, and - invisible to the suite - that the production randomness request (5 + U, never compiled '
+                               'under cfg(test)) equals the mocked one and the consumer guard. The Schnorr algebra is not decided.')
+    elif pid == 'C05':
+        R = [
+            ('RF-A option-normalisation blind entry points', lambda c: rf_consts.rule_option_normalisation(c, BLIND_ENTRIES), 14),
+            ('RF-B blind interface constants', lambda c: rf_consts.rule_interface_constants(c, BLIND_ENTRIES), 20),
+            ('RF-O production/mock twin agreement', rf_rand.rule_cfg_twins, 8),
+            ('RF-P accumulation loops (commit / blind B)', lambda c: rf_codec.rule_loop_coverage(c, fns=['bbsplus::commitment::core_commit', 'bbsplus::commitment::core_commit_verify', 'bbsplus::blind::calculate_b']), 6),
+            ('RF-G2 role positions (commit)', rf_rand.rule_role_projection, 6),
+            ('RF-B index translation agreement', rf_codec.rule_index_translation, 2),
+            ('RF-F blind generation panic census', lambda c: rf_panic.rule_panic_census(c, entries=[T.POK + 'blind_proof_gen', T.BSIG + 'blind_sign'], with_serde=False, min_functions=15), 60),
+        ]
+        meta['explanation'] = ('Decides completely: None==empty for the optional octet/list inputs of the five blind entry points. Decides as necessary conditions: '
+                               'all blind entry points reach only API_ID_BLIND (+ BLIND_ for blind generators) at every role, the commit randomness request M + 2 '
+                               'equals its mock twin and the positions read, commitment / B loops cover every committed / signer message, prover and verifier shift '
+                               'committed indexes by L + 1. The algebra is not decided.')
+    elif pid == 'C07':
+        R = [
+            ('RF-G1 CSPRNG provenance', rf_rand.rule_randomness_provenance, 8),
+            ('RF-G2 one draw per element', rf_rand.rule_draw_in_loop, 2),
+            ('RF-G2 role positions', rf_rand.rule_role_projection, 6),
+            ('RF-G4 responses are masked', rf_rand.rule_response_masks, 12),
+            ('RF-O production/mock twin agreement', rf_rand.rule_cfg_twins, 8),
+            ('RF-I transmitted types hold no secret type', rf_rand.rule_serialised_leaves_bbs, 7),
+            ('RF-S no shared state', rf_consts.rule_shared_state, 3),
+        ]
+        meta['explanation'] = ('The production randomness path is never compiled into the test binary; here it is read in the production configurations. Decided: '
+                               'every blinding role (proof scalars, commitment scalars, blind factor, random key material) has its only provenance in '
+                               'rand::thread_rng (no constant, parameter, static or seeded generator), each vector element is drawn inside the generating loop, roles '
+                               'occupy pairwise distinct positions agreed between producer and consumer, each response is mask +/- secret * challenge with its own mask, '
+                               'transmitted types reach no secret-bearing type, and no shared state exists. Probabilistic distinctness is assumed from the CSPRNG.')
+        meta['assumptions'] = ['rand::thread_rng is a CSPRNG reseeded from the OS', 'Scalar::random samples uniformly']
     elif pid == 'C08':
         R = [
             ('RF-F panic-site census', rf_panic.rule_panic_census, 150),
